@@ -26,6 +26,9 @@ CHECKS = {
  "C07": (MC, "stateless exploration of thread interleavings of the real recoco scheduler under a controlled scheduler (baton-passing real threads, line/bytecode scheduling points, deviation/preemption bounding); cooperative Lock by exhaustive program x waiter-choice enumeration",
          "Every schedule within 2 deviations (3 thorough) from the default schedule at line granularity in the hand-off functions, and within 1 (2 thorough) deviation with every line of recoco.py as a scheduling point, for four closed scenarios (callLater from 2 threads, a task woken from 2 threads and a sibling, synchronized() incl. nesting, idle/wake-up handshake) under both select-hub modes; lost wake-ups are detected because polling timeouts are never fired while work is pending. Lock: all 2-4 task programs over acquire/try/release/yield scripts with every waiter-pop choice.",
          "Modelled primitives (Lock, Event, Queue, select, pinger) in mc/thr.py; GIL atomicity of container operations; no partial-order reduction.", "DESIGN.md 4 C07"),
+ "C16": (EX, "exhaustive enumeration of boundary lattices of addresses, prefixes, textual forms and comparison tuples against the standard library's ipaddress module and integer arithmetic",
+         "Every IPv4 address with octets in a boundary set x all 33 prefix lengths x all network-membership / CIDR / netmask call forms; every IPv6 zero-run pattern x group values x 129 masks; a grammar-generated set of well-formed and malformed IPv6/IPv4/Ethernet/dpid texts; all ordered pairs and triples of a 40-element set per type for the comparison laws; 65,536 dpids. Exhaustive over that stated finite set (about 7 million evaluations quick, 97 million thorough).",
+         "Oracle = Python's ipaddress module + mc/refs/addr_ref.py; forms inet_aton accepts by tradition and '::' compressing a single group are not judged; cross-type equality excluded.", "DESIGN.md 4 C16"),
 }
 
 PENDING_REASON = "check under construction in this round (design in DESIGN.md section 4); not claimed until its harness is committed and silent on the unchanged tree"
